@@ -210,6 +210,21 @@ Theorem c16_download_provenance : forall h serve url f,
 Proof. exact download_provenance. Qed.
 Print Assumptions c16_download_provenance.
 
+(* the download request as a whole (gate of largeFileServe + fs Download), every state, every
+   request, every URL: bytes are sent only by a 200 reply to a GET with a valid API key and a
+   non-zero authenticated uid, and they are the bytes of the completed upload the URL names;
+   otherwise the request has no effect *)
+Theorem c16_served_only_completed :
+  (forall s r serve url o f,
+     serve_request s r serve url = (o, Some f) ->
+     o = Reply 200 EServed /\ s_meth r = MGet /\ first_some (s_keys r) = Some KValid /\
+     (exists u, auth_of (s_creds r) (s_sid r) = AuthUid u /\ u <> 0%N) /\
+     download s serve url = Some f /\
+     f_done f = true /\ In f (files s) /\ get_id_from_url serve url = f_id f /\ In (f_id f) (disk s)) /\
+  (forall s r serve url o, serve_request s r serve url = (o, None) -> effect_of o = ENone).
+Proof. exact (conj serve_request_served serve_request_nothing). Qed.
+Print Assumptions c16_served_only_completed.
+
 (* Download as it was before 560b667 (no status test): refuted, an upload that was started and
    never completed is served *)
 Definition c16_download_completed_unrepaired_statement : Prop :=
